@@ -70,8 +70,10 @@ theorem upsert_iff_no_match (cfg : Cfg) (now : Int) (c c1 c' : Coll) (fs : Field
   Proofs.C13.upsert_iff_no_match cfg now c c1 c' fs u multi sel r he hne hn hi hg hs h
 
 /-- The reported result of an upsert: matched_count 0 and the stored `_id` as upserted_id
-    (`updateOut` is what `UpdateResult` shows) — whatever the `_id`, null included.  (Repaired
-    defect `upsert-null-id-matched`: an upsert storing `_id: null` used to report matched_count 1.) -/
+    (`updateOut` is what `UpdateResult` shows) — whatever the `_id`, null included.  (An upsert
+    storing `_id: null` used to report matched_count 1; the repaired defect is recorded under
+    C10 as `upsert-null-id-matched` — the counts are C10's —, C13's own records of the null `_id`
+    are `nullid` and `fam-upsert-null-id-return`.) -/
 theorem upsert_result (r : UpdateResult) (id : Val) (h : r.upserted = some id) :
     updateOut r = .doc [("matched", .int 0), ("modified", .int r.nModified), ("upserted", id)] :=
   Proofs.C13.upsert_result r id h
